@@ -12,6 +12,12 @@ from . import roots as roots_mod
 
 _FACTS = {}
 
+# unsafe entry points and the disjuncts of their documented precondition (DESIGN.md §6.C18)
+CONTRACTS = {
+    # "the map is not full, or the key is already present (then nothing is appended)"
+    'insert_unchecked': ['not-full', 'no-append'],
+}
+
 
 def _init(paths):
     global _FACTS
@@ -27,9 +33,19 @@ def _work(task):
     E = Engine(facts)
     b = facts.bodies[bid]
     t0 = time.time()
-    contract = 'append-bound' if (b.unsafe and b.name == 'insert_unchecked') else None
     try:
-        rr = roots_mod.run_root(E, b, contract)
+        if b.unsafe and b.name in CONTRACTS:
+            # the documented precondition is a disjunction: one pass per disjunct
+            rr = None
+            for c in CONTRACTS[b.name]:
+                r1 = roots_mod.run_root(E, b, c)
+                if rr is None:
+                    rr = r1
+                else:
+                    rr.outcomes += r1.outcomes
+                    rr.error = rr.error or r1.error
+        else:
+            rr = roots_mod.run_root(E, b, None)
         try:
             digest = specs.check_root(E, b, rr)
         except Exception as e:
